@@ -177,6 +177,23 @@ func chunk(dir string, idx int, vals [][]byte, fail func(kind string, v []byte, 
 			eq("client-getversion-after-delete", i, val(sv), err)
 			hist = append(hist, histPut{i, n2, ver2})
 		}
+		// a secret that is read, deleted and created again under the same name: a get returns the bytes of the
+		// new secret (version numbers start again at 1, so the number alone does not tell the two apart)
+		n3 := names[i] + "/recreated"
+		if _, err := cl.Put(ctx, n3, append([]byte("earlier-"), v...)); err == nil {
+			cl.Get(ctx, n3)
+			d.GetConditional(hx.Super(), n3, 9)
+			if err := cl.Delete(ctx, n3); err == nil {
+				if _, err := cl.Put(ctx, n3, v); err != nil {
+					fail("client-put-recreated", v, err.Error())
+				} else {
+					sv, err = cl.Get(ctx, n3)
+					eq("client-get-recreated", i, val(sv), err)
+					sv, err = cl.GetIfChanged(ctx, n3, 9)
+					eq("client-getifchanged-recreated", i, val(sv), err)
+				}
+			}
+		}
 	}
 	// Store, cache, FileClient
 	cpath := filepath.Join(dir, "cache.json")
@@ -334,7 +351,7 @@ func TestCheck(t *testing.T) {
 	vals := stringsOver([]byte{0x00, 0x0a, 0x20, 0x61, 0x80, 0xff, 0x22, 0x5c}, n)
 	vals = append(vals, boundary()...)
 	sec := rep.Add(&report.Section{Name: fmt.Sprintf("round-trip-all-strings-len%d", n), Engine: "enum", Exhaustive: true, Extra: map[string]int64{},
-		Rule: "every byte string over the 8-byte alphabet up to the length bound (plus the boundary family) is put through the real HTTP client/handler and read back by Client.Get/GetVersion/GetIfChanged, db.Get/GetVersion, a Store handle, the cache file, a Store started from the cache alone, a FileClient (non-empty values), and again after reopening the database; each value is also put onto a secret whose newest version was just deleted and read back under the version the put reports, live and after the restart; non-trivial = values that are not valid UTF-8 text or are empty or carry whitespace/quotes/backslashes"})
+		Rule: "every byte string over the 8-byte alphabet up to the length bound (plus the boundary family) is put through the real HTTP client/handler and read back by Client.Get/GetVersion/GetIfChanged, db.Get/GetVersion, a Store handle, the cache file, a Store started from the cache alone, a FileClient (non-empty values), and again after reopening the database; each value is also put onto a secret whose newest version was just deleted and read back under the version the put reports, live and after the restart, and onto a name whose earlier secret was read and deleted; non-trivial = values that are not valid UTF-8 text or are empty or carry whitespace/quotes/backslashes"})
 	var mu sync.Mutex
 	fail := func(kind string, v []byte, msg string) {
 		mu.Lock()
